@@ -169,7 +169,11 @@ def gen_case(rng, i):
         cls = ("Ctl" if j == 0 else "Deco") + rng.choice(FLV + (["Plain"] if j > 0 else []))
         elems.append({"cls": cls, "name": "e%d" % j, "svc": not cls.endswith("Plain"), "falsy": rng.random() < 0.15})
     fmt = rng.choice(["yaml", "yaml", "py"])
-    case = {"kind": kind, "fmt": fmt, "elems": elems, "logging": rng.random() < 0.3, "delay": rng.choice([0.0, 0.05, 0.15, 0.3]),
+    if kind == "valid" and rng.random() < 0.25:
+        # a long pipeline of plain decorators (more than one 4096 / 8192 character buffer of text)
+        k = rng.choice([60, 130, 260])
+        elems[1:1] = [{"cls": "DecoPlain", "name": "x%d" % j, "svc": False, "falsy": False} for j in range(k)] if elems else []
+    case = {"kind": kind, "fmt": fmt, "elems": elems, "padding": rng.choice([0, 0, 0, 5000, 9000]), "logging": rng.random() < 0.3, "delay": rng.choice([0.0, 0.05, 0.15, 0.3]),
             "falsy_pool": rng.random() < 0.15}
     if kind == "failing-service":
         svcs = [e for e in elems if e["svc"]]
@@ -184,7 +188,7 @@ def gen_case(rng, i):
         if fmt == "py":
             case["error"] = rng.choice(["syntax", "ctor-error", "missing-file", "name-error"])
     if kind == "bad-ext":
-        case["ext"] = rng.choice([".txt", ".json", "", ".yamll", ".pyc.bak"])
+        case["ext"] = rng.choice([".txt", ".json", "", "", ".", ".y", ".ya", ".yam", ".ym", ".p", ".yamll", ".pyc.bak", ".YAML", ".Py", ".yaml.bak"])
     return case
 
 
@@ -210,6 +214,8 @@ def config_text(case):
             lines.append("def broken(:")
         return "\n".join(lines) + "\n"
     lines = []
+    if case.get("padding"):
+        lines += ["# " + "x" * 78] * (case["padding"] // 80)
     if case["logging"]:
         lines += ["logging:", "  version: 1"]
     if err == "unknown-section":
